@@ -225,6 +225,12 @@ def answer (line : String) : String :=
     match t.toNat?, s.toNat? with
     | some t, some s => "ok " ++ hexOfBytes (tsString t s)
     | _, _ => "bad-op"
+  | "time.mt" :: ts =>
+    -- concurrent formatting: every thread must see what a single call returns
+    match ts.mapM (·.toNat?) with
+    | some ts => "ok" ++ String.join (ts.map (fun t => " " ++ hexOfBytes (dtnString t)))
+    | none => "bad-op"
+  | ["time.real", _] => "ok"     -- the real clock is outside the model: decided by the harness-side bracket
   | ["time.now", c] =>
     match c.toNat? with
     | some c => "ok " ++ toString (dtnTimeNow c)
